@@ -60,6 +60,8 @@ def flat_prog(
             spec: Dict[str, Any] = {"kind": "term", "res": draw(st.sampled_from(list(resources)))}
             if prio_range is not None:
                 spec["prio"] = draw(st.integers(prio_range[0], prio_range[1]))
+            if draw(st.sampled_from([True, False, False, False])):
+                spec["qual"] = f"mk.<locals>.{fn}"  # a function defined inside another function
             if seq_rate and draw(st.floats(0, 1)) < seq_rate:
                 spec["seq"] = True
             if i in setup_idx:
